@@ -201,6 +201,6 @@ MANIFEST = dict(
         "equal costs), axis agreement and option binding of the minimum-error-rate loss, and the batch-mixing rule. "
         "Structural clauses of C02; that the mistakes table follows a minimum-cost alignment is value-level and not decided."),
     level_note="Trusted: python ast; docstring tables as oracle.",
-    technique="static analysis: argument binding, guard/def-use ordering rules, axis-agreement tables, enum dispatch coverage",
+    technique="static analysis: argument binding, guard/def-use ordering rules, axis-agreement tables, enum dispatch coverage; interpretation of the loss over exact tensor values (syntax tree only) compared with the documented value for every reduction / layout",
     design_ref="DESIGN.md section 4 C02",
 )
